@@ -16,20 +16,22 @@ TECHNIQUE = ("Coq proof: every read API of the static map, written as the search
              "well-formed shape, equals the sorted-dictionary function of flatten(t); mutable map = edit log + checkpoint + stash state machine refined "
              "to (current, checkpoint) dictionaries; in-Coq correspondence on the real tree shape dumped from the implementation")
 LEVEL_TEXT = ("Proof (F/P): for every well-formed tree of any depth and fan-out, Get/Has/GetPrefix/HasPrefix/IterAll/IterAllReverse/IterKeyRange/"
-              "IterOrdinalRange/GetOrdinalForKey/GetKeyRangeCardinality/Count/LastKey of the model equal the dictionary functions of the flattened "
-              "contents (full). Mutable map: refinement proved for put/delete/checkpoint/flush sequences (reads Get/Has/IterAll/IterRange/Map); the full "
-              "statement over all op sequences and all reads is refuted by four machine-checked witnesses that reproduce on the real code "
-              "(IterKeyRange ignores pending edits; GetPrefix/HasPrefix shadowed by a pending edit; Revert after a flush loses a checkpoint taken on an "
-              "empty buffer; second Revert after a stashed checkpoint keeps later writes).")
+              "IterOrdinalRange/FetchOrdinalRange/GetOrdinalForKey/GetKeyRangeCardinality/Count/LastKey of the model equal the dictionary functions of "
+              "the flattened contents (full; IterKeyRange except the one configuration refuted below). Mutable map: point reads proved to refine the "
+              "dictionary for Put/Delete/Checkpoint sequences below the flush threshold (partial); the full statement over all op sequences and all "
+              "reads is refuted by five machine-checked witnesses that reproduce on the real code (IterKeyRange ignores pending edits; GetPrefix/"
+              "HasPrefix shadowed by a pending edit; Revert after a flush loses a checkpoint taken on an empty buffer; a second Revert after a stashed "
+              "checkpoint keeps later writes; StaticMap.IterKeyRange(start above every key, nil) runs off the last leaf). Flushes, reverts and "
+              "iteration reads of the mutable map rest on the correspondence (model = implementation on every generated op sequence).")
 LEVEL_NOTE = ("Trusted: Coq kernel, Go harness + Python glue. The API functions are defined by structural recursion on the tree (binary search per "
               "level, keepInBounds, cached subtree counts) — the step-by-step cursor advance/compare loop of OrderedTreeIter is represented by the "
               "ordinal window it visits. Modelled, not verified: tuple comparator (abstracted as the order on N), chunker/ApplyMutations (any tree "
               "with the right contents; shape fed from the implementation), node store, skip-list towers (the list is modelled as its node array + "
               "checkpoint index).")
 THEOREMS = ["search_spec", "get_spec", "has_spec", "get_prefix_spec", "has_prefix_spec", "iter_all_spec", "iter_all_reverse_spec",
-            "iter_key_range_spec", "key_range_cardinality_spec", "ordinal_for_key_spec", "iter_ordinal_range_spec", "count_spec", "last_key_spec",
-            "static_oracle_holds", "mutable_refines_partial"]
-REFUTED = ["iter_key_range_refuted", "get_prefix_refuted", "revert_empty_checkpoint_refuted", "second_revert_refuted"]
+            "iter_key_range_spec", "iter_window_spec", "key_range_cardinality_spec", "ordinal_for_key_spec", "iter_ordinal_range_spec", "count_spec",
+            "last_key_spec", "mutable_get_refines_partial"]
+REFUTED = ["iter_key_range_open_stop_refuted", "iter_key_range_refuted", "get_prefix_refuted", "revert_empty_checkpoint_refuted", "second_revert_refuted"]
 RULE = ("maps of 0..600 entries over (uint32,uint32,pad) keys with pad widths chosen so that trees have 1..4 levels; probes = present, absent, "
         "below-min, above-max keys, every bound combination incl. unbounded/empty/inverted, ordinal ranges incl. the error cases; mutable cases = "
         "random put/delete/checkpoint/revert/flush sequences with maxPending in {1,2,7,64,default}, reads at random points; non-trivial = at least "
@@ -155,7 +157,7 @@ def gen_cases(rng, tier):
     cases = [gen_static(rng, 0, 0), gen_static(rng, 1, 0), gen_static(rng, 2, 300)]
     cases += [dict(w) for w in WITNESSES]
     ns = 14 if tier == "quick" else 600
-    nm = 40 if tier == "quick" else 3000
+    nm = 34 if tier == "quick" else 3000
     for i in range(ns):
         kw = rng.choice([0, 150, 300, 300, 450])
         if kw == 0:
